@@ -207,6 +207,14 @@ func C10(c *core.Ctx) {
 		_ = os.WriteFile(filepath.Join(wd, "inc.yaml"), []byte(doc), 0o644)
 		placements["included"] = []namedDoc{{Name: filepath.Join(wd, "main.yaml"), Content: "include:\n  - inc.yaml\nservices:\n  extra: {image: img}\n"}}
 		names := []string{"single", "override", "included"}
+		if f2 := asMap(cs["fragment2"]); asStr(f2["t"]) != "n" && f2 != nil {
+			// the edit takes two later files: as files, and as documents of one file (the single document is the merged result)
+			frag2 := yamlOf(cs["fragment2"])
+			placements["override"] = append(placements["override"], namedDoc{Name: filepath.Join(wd, "over2.yaml"), Content: frag2})
+			placements["documents"] = []namedDoc{{Name: filepath.Join(wd, "multi.yaml"), Content: base + "\n---\n" + frag + "\n---\n" + frag2 + "\n"}}
+			names = append(names, "documents")
+			frag += " then " + frag2
+		}
 		for _, pl := range names {
 			p, lerr := safeLoad(wd, nil, placements[pl])
 			key := fmt.Sprintf("%s %s %s [%s]", kind, rule, frag, pl)
